@@ -84,6 +84,8 @@ def initial_content(kind: str, st: dict | None) -> bytes:
     if kind == "owncon":
         return (cm("SPDX-FileCopyrightText: 1990 Old Holder") + "\n" + cm("SPDX-FileContributor: Old Contributor") + "\n"
                 + cm("SPDX-License-Identifier: Zlib") + "\n\n" + code).encode()
+    if kind == "conly":          # a header that names a contributor and nothing else
+        return (cm("SPDX-FileContributor: Old Contributor") + "\n\n" + code).encode()
     if kind == "badexpr":
         return (cm("SPDX-License-Identifier: MIT AND AND") + "\n" + code).encode()
     return code.encode()
